@@ -110,13 +110,17 @@ pub fn run(args: &Args) -> serde_json::Value {
         let lad = random_ladder(&mut rng, nrep);
         let mut tc = build(&lad, &mut rng);
         let par = li % 3 == 2;
-        let rounds = 2 + rng.below(4) as usize;
+        // every fourth ladder runs many rounds: cutoffs keep growing by different amounts between tempering steps
+        let rounds = if li % 4 == 1 { 8 + rng.below(6) as usize } else { 2 + rng.below(4) as usize };
+        let mut last_cutoffs: Vec<usize> = vec![];
+        let mut dead = false;
         for _ in 0..rounds {
             let nts = 1 + rng.below(5) as usize;
             let rts = catch_unwind(AssertUnwindSafe(|| tc.timesteps(nts)));
             if rts.is_err() {
                 oracle_failures.push(json!({"prop": "C06", "what": "a replica's timestep panicked (debug integrity check) in a tempering run", "ladder": li,
                     "betas": lad.betas, "initial_cutoffs": lad.specs.iter().map(|s| s.cutoff).collect::<Vec<_>>()}));
+                dead = true; // a sampler that panicked mid-update is not observable any more
                 break;
             }
             let before = snapshot(&tc);
@@ -144,6 +148,7 @@ pub fn run(args: &Args) -> serde_json::Value {
             if r.is_err() {
                 oracle_failures.push(json!({"what": "tempering_step panicked", "ladder": li}));
                 coq.push(format!("C10.Step {} [] [] 0%nat true", head));
+                dead = true;
                 break;
             }
             let words = tc.rng_mut().take_log();
@@ -151,6 +156,24 @@ pub fn run(args: &Args) -> serde_json::Value {
             let dswaps = tc.get_total_swaps() - swaps0;
             n_swaps += dswaps;
             distinct.insert(format!("{:?}", before));
+            // C12 inside tempering runs: a position's reported cutoff never shrinks and never lies below its operator count
+            for i in 0..nrep {
+                let (nb, na) = (before[i].0.iter().flatten().count(), after[i].0.iter().flatten().count());
+                if before[i].2 < nb || after[i].2 < na {
+                    oracle_failures.push(json!({"prop": "C12,C10", "what": format!("position {} reports cutoff {} -> {} with operator count {} -> {} around a tempering step: cutoff below the operator count", i, before[i].2, after[i].2, nb, na),
+                        "ladder": li, "replicas": nrep, "parallel": par, "betas": lad.betas, "initial_cutoffs": lad.specs.iter().map(|s| s.cutoff).collect::<Vec<_>>(),
+                        "edges": lad.specs.iter().map(|s| s.edges.clone()).collect::<Vec<_>>(), "gammas": lad.specs.iter().map(|s| s.gamma).collect::<Vec<_>>(), "hs": lad.specs.iter().map(|s| s.h).collect::<Vec<_>>()}));
+                }
+                if after[i].2 < before[i].2 {
+                    oracle_failures.push(json!({"prop": "C12,C10", "what": format!("position {} cutoff shrank {} -> {} in a tempering step", i, before[i].2, after[i].2), "ladder": li}));
+                }
+                if let Some(prev) = last_cutoffs.get(i) {
+                    if before[i].2 < *prev {
+                        oracle_failures.push(json!({"prop": "C12", "what": format!("position {} cutoff shrank {} -> {} during time steps of a tempering run", i, prev, before[i].2), "ladder": li}));
+                    }
+                }
+            }
+            last_cutoffs = after.iter().map(|s| s.2).collect();
             // --- oracle from the property text
             let maxc = before.iter().map(|s| s.2).max().unwrap();
             if after.iter().any(|s| s.2 != maxc) {
@@ -238,7 +261,7 @@ pub fn run(args: &Args) -> serde_json::Value {
         // container tape: pairing order word 0, then uniforms alternating between 2^-52 ("accept unless the ratio is
         // zero") and 1 - 2^-52 ("reject unless the ratio is >= 1").  Whatever way the implementation hands the drawn
         // uniforms to the pairs of a phase, SOME assignment of distinct uniforms to pairs must reproduce its decisions.
-        if nrep >= 4 {
+        if nrep >= 4 && !dead {
             let before = snapshot(&tc);
             let na = nrep / 2;
             let nb = (nrep - 1) / 2;
@@ -444,7 +467,7 @@ pub fn run(args: &Args) -> serde_json::Value {
         }
     }
     oracle_failures.sort_by_key(|f| f["prop"].as_str().unwrap_or("").to_string());
-    oracle_failures.truncate(60);
+    crate::cap_failures(&mut oracle_failures, 20);
     let files = crate::write_shards(&args.out, "C10", "C10", &coq, if args.thorough { 300 } else { 40 });
     json!({"files": files, "evaluations": coq.len(), "distinct_nontrivial": distinct.len() + n_probes, "tempering_steps": n_steps,
         "accepted_exchanges": n_swaps, "generic_sampler_tempering_steps": n_gsteps, "generic_sampler_accepted_exchanges": n_gswaps, "threshold_probes": n_probes, "steps_with_unequal_cutoffs_before": n_unequal_cutoffs, "independence_probes": n_indep, "independence_probes_where_assignments_differ": n_indep_nontrivial,
